@@ -68,10 +68,11 @@ theorem decoded_fields_roundtrip (v : Ver) (T : OpTable) (F : FlagTable) (dec : 
     (hnodup : (varnames.take (argc + kw + (if fl.testBit bVARARGS then 1 else 0) + (if fl.testBit bVARKEYWORDS then 1 else 0))).Nodup)
     (hpos37 : v.hasPosOnly = false → pos = 0)
     (henc : fromCodeDataGo v F enc d = .ok c') :
-    ∃ (K : List Const) (code' lt' : List Nat) (consts' : List RConst),
+    ∃ (K : List Const) (out : BlocksOut) (lt' : List Nat) (consts' : List RConst),
       consts.mapM (fun c => match c with | .inner i => pure (Const.inner i) | .code k => Const.code <$> dec k) = .ok K ∧
       K.mapM (fun c => match c with | .inner i => pure (RConst.inner i) | .code d => RConst.code <$> enc d) = .ok consts' ∧
-      c' = .mk argc pos kw nl ss fl fln code' lt' fname name names varnames freevars cellvars consts' := by
+      blocksToBytes v d.blocks d.addArgs d.freevars d.type = .ok out ∧
+      c' = .mk argc pos kw nl ss fl fln out.code lt' fname name names varnames freevars cellvars consts' := by
   unfold toCodeDataGo at h
   dsimp only at h
   split at h
@@ -107,7 +108,7 @@ theorem decoded_fields_roundtrip (v : Ver) (T : OpTable) (F : FlagTable) (dec : 
     cases hv' : v.hasPosOnly
     · simp [hpos37 hv']
     · simp
-  refine ⟨K, out.code, table, consts', hK, by rw [← hk]; exact hc', ?_⟩
+  refine ⟨K, out, table, consts', hK, by rw [← hk]; exact hc', hout, ?_⟩
   rw [hcmk, hn, hv, hc, ← hnl']
   cases tp with
   | none =>
